@@ -183,8 +183,12 @@ def standalone(chk: Check, n):
         nrows = rng.randint(4 * nv, 60)
         variant = [ids[j % nv] for j in range(nrows)]
         rng.shuffle(variant)
-        data = pa.table({"variant": variant, **{c: nprng.normal(3, 1, nrows) + (1 if c in "bd" else 0) for c in colnames},
-                         "unused": ["q"] * nrows})
+        colvals = {c: nprng.normal(3, 1, nrows) + (1 if c in "bd" else 0) for c in colnames}
+        if nv >= 3 and i % 4 == 3:
+            # a hold-out variant on a vastly different scale: the entries of the OTHER pairs must not feel it
+            far = np.array([v == ids[-1] for v in variant])
+            colvals = {c: np.where(far, x * 1e10, x) for c, x in colvals.items()}
+        data = pa.table({"variant": variant, **colvals, "unused": ["q"] * nrows})
         logs = {}
         metrics = {}
         k = rng.randint(1, 6) if i % 3 == 2 else rng.randint(2, 6)
@@ -266,6 +270,33 @@ def standalone(chk: Check, n):
                     chk.fail("an experiment entry differs from the metric analysed alone on the same data and pair",
                              dict(input=inp, metric=name, pair=repr((c, t)), field=bad[0],
                                   alone=repr(a[bad[0]]), in_experiment=repr(g.get(bad[0]))))
+        # "a result never depends on which other variants are present": the same built-in metrics on the rows of the
+        # pair alone
+        builtin = {k_: v for k_, v in metrics.items() if type(v) in (tt.Mean, tt.RatioOfMeans, tt.SampleRatio, tt.Quantile)}
+        if builtin and nv >= 3:
+            import pyarrow.compute as pc
+            for (c, t), er in res.items():
+                only = data.filter(pc.is_in(data["variant"], value_set=pa.array([c, t])))
+                try:
+                    alone2 = tt.Experiment(builtin).analyze(only, c)
+                except Exception as ex:  # noqa: BLE001
+                    chk.fail("Experiment.analyze raised on the rows of one pair", dict(input=inp, pair=repr((c, t)), error=repr(ex)))
+                    break
+                bad = None
+                for name in builtin:
+                    a = alone2[name] if isinstance(alone2[name], dict) else alone2[name]._asdict()
+                    g = er[name] if isinstance(er[name], dict) else er[name]._asdict()
+                    for f in a:
+                        if not approx(a[f], g.get(f), 1e-7):
+                            bad = (name, f, a[f], g.get(f))
+                            break
+                    if bad:
+                        break
+                if bad:
+                    chk.fail("an entry depends on which OTHER variants are present: the pair analysed on its own rows gives "
+                             "a different result", dict(input=inp, pair=repr((c, t)), metric=bad[0], field=bad[1],
+                                                        pair_only=repr(bad[2]), with_other_variants=repr(bad[3])))
+                    break
         # custom metrics received what they declared, with the values of the pair
         for name, log in logs.items():
             m = metrics[name]
